@@ -46,14 +46,14 @@ var propSets = map[string][]string{
 	"C02": {"prim", "r3", "c02", "c12", "c20", "c06", "c18"},
 	"C03": {"prim", "r3", "ingest", "c20", "c02", "c06"},
 	"C04": {"prim", "more", "ingest", "proof", "r3"},
-	"C05": {"r3", "more", "ingest", "chan", "loops", "setters", "c19f", "c20", "registry", "proof", "prim"},
+	"C05": {"r3", "more", "ingest", "chan", "loops", "setters", "c19f", "c20", "registry", "proof", "prim", "shutdown"},
 	"C06": {"prim", "c06", "c18", "r3"},
 	"C07": {"prim", "r3", "more", "ingest", "proof", "c20", "c06"},
 	"C08": {"prim", "r3", "more", "ingest", "proof", "c17"},
 	"C09": {"prim", "r3", "more", "ingest", "c20", "proof"},
 	"C10": {"prim", "r3", "ingest", "setters", "c20", "c17", "more", "c06"},
 	"C11": {"prim", "r3", "more", "ingest", "proof", "c20"},
-	"C12": {"r3", "more", "c12", "c18", "locks", "ingest", "loops", "spawn", "chan", "registry", "proof", "timer"},
+	"C12": {"r3", "more", "c12", "c18", "locks", "ingest", "loops", "spawn", "chan", "registry", "proof", "timer", "shutdown"},
 	"C13": {"prim", "r3", "more", "ingest", "setters", "locks", "registry", "loops", "c17"},
 	"C14": {"prim", "r3", "more", "ingest", "chan", "sync", "loops", "registry", "shutdown", "timer"},
 	"C15": {"r3", "more", "ingest", "registry", "locks", "loops", "sync", "shutdown", "chan", "prim"},
